@@ -430,7 +430,11 @@ def judge(spec, rec):
 # generators
 
 LETTERS = list('abcABC') + ['x', 'Y']
-NONASCII = ['é', 'É', 'ß', 'Σ', 'σ']
+NONASCII = ['é', 'É', 'ß', 'Σ', 'σ',
+            # letters that Unicode normalisation (NFC/NFKC) would alter or merge: KELVIN SIGN vs K, ANGSTROM SIGN vs Å,
+            # OHM SIGN vs Ω, e + combining acute vs é, DEVANAGARI QA (decomposes), a ligature - "no other character is ever
+            # ignored or altered"
+            '\u212a', 'K', '\u212b', '\u00c5', '\u2126', '\u03a9', 'e\u0301', '\u0958', '\ufb01']
 OTHER = list('019.-,!?(_')
 NONSPACE = LETTERS + NONASCII + OTHER
 BREAKS = ['\r', '\n', '\r\n', '\n\r']
